@@ -65,7 +65,9 @@ class AstGen:
         return "".join(parts)
 
     def tags(self):
-        return [{"location": self.loc(), "name": "@" + self.r.choice("abcde")} for _ in range(self.r.choice([0, 0, 1, 2, 3]))]
+        # a few tag names look like placeholders of the usual header names: tags are never substituted
+        return [{"location": self.loc(), "name": "@" + self.r.choice(["a", "b", "c", "d", "e", "a", "b", "c", "<a>", "t-<h>", "<b>x"])}
+                for _ in range(self.r.choice([0, 0, 1, 2, 3]))]
 
     def cell(self, v):
         return {"location": self.loc(), "value": v}
@@ -182,6 +184,24 @@ def shape_of(doc):
 _HELD = {}
 
 
+def _edit_in_place(o):
+    """rename every tag, reverse every tag list (same lengths, same list objects), rename scenarios and steps"""
+    if isinstance(o, dict):
+        if isinstance(o.get("tags"), list):
+            o["tags"].reverse()
+            for t in o["tags"]:
+                t["name"] = t.get("name", "") + "_edited"
+        if "steps" in o and "name" in o:
+            o["name"] = o["name"] + " (edited)"
+        if "text" in o and "keyword" in o:
+            o["text"] = o["text"] + " (edited)"
+        for v in o.values():
+            _edit_in_place(v)
+    elif isinstance(o, list):
+        for v in o:
+            _edit_in_place(v)
+
+
 def _reordered(o):
     if isinstance(o, dict):
         return {k: _reordered(o[k]) for k in reversed(list(o))}
@@ -229,6 +249,27 @@ def compare(doc, uri, next_free, prop, M, case, compiler=None):
                                                   "differences": short(d3.get(prop), 300)}, case)
             else:
                 M.count("advisory.reordered_differs_in_other_group")
+    if compiler is None and M.counters.get("compile_calls", 0) % 8 == 1:
+        # the caller edits the document he holds (renames every tag, reverses every tag list, renames the scenarios) and compiles
+        # it again with the SAME Compiler: the pickles are those of the document as it is now
+        M.count("edited_recompiles_compared")
+        comp2 = Compiler(generator_at(next_free))
+        d4 = json.loads(json.dumps(before))
+        try:
+            comp2.compile(d4)
+            _edit_in_place(d4)
+            start2 = int(comp2.id_generator.get_next_id()) + 1
+            got4 = comp2.compile(d4)
+            want4 = refcompile.ref_compile(d4, uri, refcompile.counter_from(start2))
+        except Exception as e:
+            got4, want4 = {"raised": repr(e)[:160]}, None
+        if got4 != want4:
+            d4g = diff_groups(got4, want4) if isinstance(got4, list) and want4 is not None else {prop: [{"got": got4}]}
+            if prop in d4g:
+                M.violation(prop + ".edited", {"what": "a document edited in place by its owner and compiled again by the same Compiler gives pickles that do not match the document as it is now (%s)" % GROUPS.get(prop, prop),
+                                               "differences": short(d4g.get(prop), 300)}, case)
+            else:
+                M.count("advisory.edited_recompile_differs_in_other_group")
     if compiler is None and M.counters.get("compile_calls", 0) % 4 == 0:
         # the same document compiled a second time (a caller may compile a document it has kept): same pickles
         M.count("recompiles_compared")
